@@ -6,10 +6,11 @@ import Driver.Gen
 import Driver.Release
 import Driver.Post
 import Driver.Grid
+import Driver.Forcing
 open Driver
 
 def allHandlers : List (String × Handler) :=
-  chemHandlers ++ ibmHandlers ++ genHandlers ++ releaseHandlers ++ postHandlers ++ gridHandlers
+  chemHandlers ++ ibmHandlers ++ genHandlers ++ releaseHandlers ++ postHandlers ++ gridHandlers ++ forcingHandlers
 
 def table : Std.HashMap String Handler := Std.HashMap.ofList allHandlers
 
